@@ -7,6 +7,7 @@
 package main
 
 import (
+	"context"
 	"flag"
 	"fmt"
 	"os"
@@ -384,14 +385,74 @@ func main() {
 			}
 		}(w)
 	}
+	// file layer: the same content read the way the running application reads it - a *.toml file in a configuration
+	// directory, through the real LoadDeviceConfigs (open, read, ParseData, wrap). Differential oracle: it returns, does
+	// not panic, reports no error for a complete tree, and holds a configuration exactly when ParseData accepts the content.
+	// One goroutine per process (the loader resolves its directories against the process-wide working directory).
+	fch := make(chan input, 256)
+	fdone := make(chan struct{})
+	const fw = 63 // watchdog slot of the file worker
+	tree, terr := os.MkdirTemp("", "verif_c09_")
+	if terr != nil {
+		vutil.Fail(*out, terr.Error())
+	}
+	defer os.RemoveAll(tree)
+	for _, d := range []string{"factory/gamepad", "factory/keyboard", "user/gamepad", "user/keyboard"} {
+		os.MkdirAll(filepath.Join(tree, "hidi-config", d), 0o755)
+	}
+	if abs, err := filepath.Abs(*out); err == nil {
+		*out = abs
+	}
+	if err := os.Chdir(tree); err != nil {
+		vutil.Fail(*out, err.Error())
+	}
+	go func() {
+		defer close(fdone)
+		file := filepath.Join(tree, "hidi-config", "user", "keyboard", "x.toml")
+		for in := range fch {
+			busyName[fw].Store(in)
+			busy[fw].Store(time.Now().UnixNano())
+			if err := os.WriteFile(file, in.data, 0o644); err != nil {
+				vutil.Fail(*out, err.Error())
+			}
+			func() {
+				defer func() {
+					if r := recover(); r != nil {
+						msg := fmt.Sprint(r)
+						res.Violate("config-file-read-panics", normalize(msg), fmt.Sprintf("LoadDeviceConfigs panicked on a file with content %q: %s", in.name, msg),
+							map[string]interface{}{"input_name": in.name, "content": string(in.data), "panic": msg})
+					}
+				}()
+				_, perr := config.ParseData(in.data)
+				cfgs, lerr := config.LoadDeviceConfigs(context.Background(), &sync.WaitGroup{})
+				if lerr != nil {
+					res.Violate("config-file-read-fails-the-load", normalize(lerr.Error()), fmt.Sprintf("LoadDeviceConfigs returned an error (%v) for a complete tree whose only file has content %q", lerr, in.name),
+						map[string]interface{}{"input_name": in.name, "content": string(in.data)})
+					return
+				}
+				n := len(cfgs.User.Keyboards) + len(cfgs.User.Gamepads) + len(cfgs.Factory.Keyboards) + len(cfgs.Factory.Gamepads)
+				if (perr == nil) != (n == 1) || len(cfgs.User.Keyboards) != n {
+					res.Violate("config-file-read-differs-from-parse", fmt.Sprint(perr == nil, n), fmt.Sprintf("content %q: ParseData error=%v, but the loader holds %d configuration(s) after reading it from a file", in.name, perr, n),
+						map[string]interface{}{"input_name": in.name, "content": string(in.data)})
+				}
+			}()
+			busy[fw].Store(0)
+			res.Add("file_layer_evaluations", 1)
+		}
+	}()
 	go func() { // hang watchdog
 		for {
 			time.Sleep(5 * time.Second)
 			now := time.Now().UnixNano()
-			for w := 0; w < nw; w++ {
+			for _, w := range []int{0, 1, 2, 3, fw} {
 				if b := busy[w].Load(); b != 0 && now-b > int64(30*time.Second) {
 					in, _ := busyName[w].Load().(input)
-					res.Violate("parse-hangs", in.name, "config.ParseData did not return within 30 s (normal cost: microseconds)", map[string]interface{}{"input_name": in.name, "content": string(in.data)})
+					if w == fw {
+						res.Violate("config-file-read-hangs", in.name, "LoadDeviceConfigs did not return within 30 s for a configuration file with this content (normal cost: microseconds)", map[string]interface{}{"input_name": in.name, "content": string(in.data)})
+					} else {
+						res.Violate("parse-hangs", in.name, "config.ParseData did not return within 30 s (normal cost: microseconds)", map[string]interface{}{"input_name": in.name, "content": string(in.data)})
+					}
+					os.RemoveAll(tree)
 					res.Exhaustive = false
 					res.Write(*out)
 					os.Exit(0)
@@ -399,7 +460,7 @@ func main() {
 			}
 		}
 	}()
-	n := 0
+	n, fn := 0, 0
 	emit := func(in input) {
 		n++
 		if n%*nshards == *shard {
@@ -407,6 +468,11 @@ func main() {
 				res.Sample(map[string]interface{}{"name": in.name, "content_prefix": string(in.data[:min(len(in.data), 120)])})
 			}
 			ch <- in
+			// file layer: every content of at most 2 bytes and a fixed 1-in-61 stride of this process's share of the enumeration
+			fn++
+			if len(in.data) <= 2 || fn%61 == 0 {
+				fch <- in
+			}
 		}
 	}
 	for _, f := range files {
@@ -424,7 +490,9 @@ func main() {
 	tokenSeqs(maxTok, emit)
 	rawBytes(*tier, emit)
 	close(ch)
+	close(fch)
 	wg.Wait()
+	<-fdone
 	res.Add("generated_total", int64(n))
 	res.Write(*out)
 }
